@@ -3651,6 +3651,8 @@ class DecVar(Vars):
     def evtadapt(self, scens):
 
         if isinstance(scens, Scen):
+            if scens.ambset.model is not self.dro_model:
+                raise ValueError('Models mismatch.')
             # a Scen object carries the positions of its scenarios
             indices = scens.series
             indices = ([indices] if isinstance(indices, Real) else
